@@ -208,7 +208,14 @@ fn plans_c15(tier: Tier) -> Vec<Plan> {
     c1.variant = 1;
     c1.topics = s(&["r/a", "r/b"]);
     c1.filters = s(&["r/+", "r/a"]);
-    v.push(Plan { cfg: c1, depth_by_devs: if q { vec![4] } else { vec![6, 5] } });
+    v.push(Plan { cfg: c1.clone(), depth_by_devs: if q { vec![4] } else { vec![6, 5] } });
+    // retained QoS 2 publishes of an MQTT 5 publisher (properties), window of 2
+    let mut c2 = c1.clone();
+    c2.variant = 2;
+    c2.v5 = vec![true, false, true, false, false];
+    v.push(Plan { cfg: c2.clone(), depth_by_devs: if q { vec![3] } else { vec![5, 4] } });
+    c2.max_out = 2;
+    v.push(Plan { cfg: c2, depth_by_devs: if q { vec![3] } else { vec![5] } });
     v
 }
 
@@ -297,6 +304,14 @@ fn plans_c20(tier: Tier) -> Vec<Plan> {
         w.prelude.push(Act::Sub { c: 2, f: 0, qos: 1 });
         let mut late = w.clone();
         w.prelude.push(Act::Sub { c: 3, f: 0, qos: 1 });
+        if pub_v5 {
+            // subscription identifier and broker alias on the same forward; one alias only
+            for variant in [101u8, 102] {
+                let mut x = w.clone();
+                x.variant = variant;
+                v.push(Plan { cfg: x, depth_by_devs: if q { vec![3] } else { vec![4] } });
+            }
+        }
         v.push(Plan { cfg: w, depth_by_devs: if q { vec![3] } else { vec![5, 4] } });
         if pub_v5 {
             // the MQTT 5 subscriber subscribes late: retained messages (with properties) are
@@ -383,7 +398,7 @@ pub fn explore_plans(prop: &'static str, tier: Tier, reporter: &Reporter, ev: &m
             *d += delta;
         }
         // histories without scheduling deviations are cheap: one step deeper in the quick tier
-        if tier == Tier::Quick && matches!(prop, "C08" | "C14" | "C15" | "C16" | "C19") {
+        if tier == Tier::Quick && matches!(prop, "C08" | "C14" | "C16" | "C19") {
             p.depth_by_devs[0] += 1;
         }
     }
